@@ -696,8 +696,41 @@ func E11CapJoin(c *core.Ctx, r *core.Report) {
 		}
 		return true
 	})
-	if okClosed >= 1 && badClosed == 0 && total == okClosed {
-		r.OK("E11.cap-join", "canvas.Path.offset|closed flag", c.Pos(fd.Pos()), "set to true only in case CloseCmd")
+	// … and on every path through the Close case: a direct statement of the case body, with no
+	// break/continue/return/goto anywhere before it in the clause
+	uncond := false
+	for _, cc := range cmdSwitchClauses(p, fd) {
+		isClose := false
+		for _, k := range core.CaseConsts(info, cc) {
+			if k == "CloseCmd" {
+				isClose = true
+			}
+		}
+		if !isClose {
+			continue
+		}
+		escaped := false
+		for _, st := range cc.Body {
+			if as, ok := st.(*ast.AssignStmt); ok && as.Tok == token.ASSIGN && len(as.Lhs) == 1 {
+				if id, ok := as.Lhs[0].(*ast.Ident); ok && core.ObjOf(info, id) == closedObj && !escaped {
+					uncond = true
+				}
+			}
+			ast.Inspect(st, func(n ast.Node) bool {
+				switch n.(type) {
+				case *ast.BranchStmt, *ast.ReturnStmt:
+					escaped = true
+				case *ast.FuncLit:
+					return false
+				}
+				return true
+			})
+		}
+	}
+	if okClosed >= 1 && badClosed == 0 && total == okClosed && !uncond {
+		r.Fail("E11.cap-join", "canvas.Path.offset|closed flag", c.Pos(fd.Pos()), "`closed = true` is not reached on every path through the Close case (a break/return precedes it or it is nested in a condition): some closed sub-paths, e.g. those whose closing segment has zero length, are treated as open and get caps instead of a join")
+	} else if okClosed >= 1 && badClosed == 0 && total == okClosed {
+		r.OK("E11.cap-join", "canvas.Path.offset|closed flag", c.Pos(fd.Pos()), "set to true only, and unconditionally, in case CloseCmd")
 	} else {
 		r.Fail("E11.cap-join", "canvas.Path.offset|closed flag", c.Pos(fd.Pos()), fmt.Sprintf("`closed` is assigned %d times, %d of them `= true` inside the CloseCmd case: open and closed sub-paths are confused", total, okClosed))
 	}
@@ -853,6 +886,50 @@ func E11DashIndependence(c *core.Ctx, r *core.Report) {
 	}
 	if acc == nil || carried[acc] == token.NoPos {
 		r.Fail("E11.dash-independent", "canvas.Path.Dash|accumulator", c.Pos(loop.Pos()), "the returned path is not accumulated inside the sub-path loop")
+	}
+	// nothing computed from the whole path may be consulted for an individual sub-path
+	recv := recvObj(info, fd)
+	derived := map[types.Object]ast.Node{}
+	for _, st := range fd.Body.List {
+		if st == ast.Stmt(loop) {
+			break
+		}
+		as, ok := st.(*ast.AssignStmt)
+		if !ok {
+			continue
+		}
+		mentionsRecv := false
+		for _, rhs := range as.Rhs {
+			ast.Inspect(rhs, func(m ast.Node) bool {
+				if id, ok := m.(*ast.Ident); ok && core.ObjOf(info, id) == recv {
+					mentionsRecv = true
+				}
+				return true
+			})
+		}
+		if mentionsRecv {
+			for _, l := range as.Lhs {
+				if id, ok := l.(*ast.Ident); ok {
+					derived[core.ObjOf(info, id)] = as
+				}
+			}
+		}
+	}
+	whole := ""
+	var wholePos token.Pos
+	ast.Inspect(loop.Body, func(m ast.Node) bool {
+		if id, ok := m.(*ast.Ident); ok {
+			o := core.ObjOf(info, id)
+			if o == recv || derived[o] != nil {
+				whole, wholePos = id.Name, id.Pos()
+			}
+		}
+		return true
+	})
+	if whole == "" {
+		r.OK("E11.dash-independent", "canvas.Path.Dash|no whole-path value in the sub-path loop", c.Pos(loop.Pos()), "")
+	} else {
+		r.Fail("E11.dash-independent", "canvas.Path.Dash|no whole-path value in the sub-path loop", c.Pos(wholePos), fmt.Sprintf("`%s`, which is (derived from) the whole receiver path, is consulted inside the loop over its sub-paths: a property of the whole path (e.g. whether its last sub-path is closed) then decides how every sub-path is dashed", whole))
 	}
 	// the per-sub-path state starts from the pattern start computed once
 	_, okStart := core.AlphaSeq(c.Norm(p, fd), "$i0,$pos0:=dashStart(", "for _,$ps:=range $p.Split(){$i:=$i0;$pos:=$pos0;")
@@ -1064,3 +1141,94 @@ func constantFloat(v constant.Value) (float64, bool) {
 
 // squash removes all whitespace.
 func squash(s string) string { return strings.Join(strings.Fields(s), "") }
+
+
+// E11SweepFlip: Transform negates the sweep flag exactly when the matrix reverses orientation.
+func E11SweepFlip(c *core.Ctx, r *core.Report) {
+	r.Rule("E11.sweep-flip", "Path.Transform negates an arc's sweep flag under a condition on the sign of the determinant of the matrix: the product of the two axis scales returned by m.Decompose() (or m.Det()) compared with zero; the diagonal entries of the matrix do not decide orientation (rotations and shears move the sign off the diagonal)")
+	p := c.MustPkg("")
+	info := p.TypesInfo
+	fd := core.MustFuncDecl(p, "Path.Transform")
+	r.Func("canvas.Path.Transform")
+	mObj := paramObj(info, fd, 0)
+	// results of m.Decompose()
+	scale := map[types.Object]int{}
+	ast.Inspect(fd.Body, func(n ast.Node) bool {
+		as, ok := n.(*ast.AssignStmt)
+		if !ok || len(as.Rhs) != 1 {
+			return true
+		}
+		call, ok := core.Unparen(as.Rhs[0]).(*ast.CallExpr)
+		if !ok {
+			return true
+		}
+		f := core.CalleeOf(info, call)
+		if f == nil || core.QualifiedCallee(f) != core.Module+".Matrix.Decompose" {
+			return true
+		}
+		if rid, ok := core.Unparen(call.Fun.(*ast.SelectorExpr).X).(*ast.Ident); !ok || core.ObjOf(info, rid) != mObj {
+			return true
+		}
+		for i, l := range as.Lhs {
+			if id, ok := l.(*ast.Ident); ok && id.Name != "_" {
+				scale[core.ObjOf(info, id)] = i
+			}
+		}
+		return true
+	})
+	n := 0
+	ast.Inspect(fd.Body, func(nd ast.Node) bool {
+		is, ok := nd.(*ast.IfStmt)
+		if !ok || len(is.Body.List) != 1 {
+			return true
+		}
+		as, ok := is.Body.List[0].(*ast.AssignStmt)
+		if !ok || len(as.Lhs) != 1 || len(as.Rhs) != 1 {
+			return true
+		}
+		un, ok := core.Unparen(as.Rhs[0]).(*ast.UnaryExpr)
+		if !ok || un.Op != token.NOT || types.ExprString(un.X) != types.ExprString(as.Lhs[0]) {
+			return true
+		}
+		if b, ok := info.TypeOf(as.Lhs[0]).Underlying().(*types.Basic); !ok || b.Info()&types.IsBoolean == 0 {
+			return true
+		}
+		n++
+		key := fmt.Sprintf("canvas.Path.Transform|sweep negation #%d", n)
+		okCond := false
+		if be, ok := core.Unparen(is.Cond).(*ast.BinaryExpr); ok && (be.Op == token.LSS || be.Op == token.GTR) {
+			lhs, rhs := be.X, be.Y
+			if be.Op == token.GTR {
+				lhs, rhs = rhs, lhs
+			}
+			if z, isC := core.ConstVal(info, rhs).(interface{ String() string }); isC && (z.String() == "0" || z.String() == "0.0") {
+				switch x := core.Unparen(lhs).(type) {
+				case *ast.BinaryExpr:
+					if x.Op == token.MUL {
+						a, _ := core.Unparen(x.X).(*ast.Ident)
+						b, _ := core.Unparen(x.Y).(*ast.Ident)
+						if a != nil && b != nil {
+							ia, okA := scale[core.ObjOf(info, a)]
+							ib, okB := scale[core.ObjOf(info, b)]
+							if okA && okB && ((ia == 3 && ib == 4) || (ia == 4 && ib == 3)) {
+								okCond = true
+							}
+						}
+					}
+				case *ast.CallExpr:
+					if f := core.CalleeOf(info, x); f != nil && core.QualifiedCallee(f) == core.Module+".Matrix.Det" {
+						okCond = true
+					}
+				}
+			}
+		}
+		if okCond {
+			r.OK("E11.sweep-flip", key, c.Pos(is.Pos()), types.ExprString(is.Cond))
+		} else {
+			r.Fail("E11.sweep-flip", key, c.Pos(is.Pos()), fmt.Sprintf("the sweep flag is negated under `%s`, which is not the sign of the determinant (product of the axis scales of m.Decompose(), or m.Det()): for matrices with rotation or shear the arc is drawn on the wrong side of its chord", types.ExprString(is.Cond)))
+		}
+		return true
+	})
+	r.Count("E11.sweep-negations", n)
+	r.Floor("E11.sweep-negations", 1)
+}
